@@ -140,7 +140,7 @@ mutual
   dead and do not count, an OrList's `choice` is its alive alternative -/
   def PA (N : List Name) : ST → Prop
     | .simple n v _ => n ∈ N ∧ MT.rank .some_ ≤ v.rank
-    | .mult .and v _ _ _ cs => MT.rank .some_ ≤ v.rank ∧ PAall N cs
+    | .mult .and v _ _ _ cs => MT.rank .some_ ≤ v.rank ∧ cs ≠ [] ∧ PAall N cs
     | .mult .andor v _ _ _ cs => MT.rank .some_ ≤ v.rank ∧ PAsome N cs ∧ PAany N cs
     | .mult .or v c _ _ cs => MT.rank .some_ ≤ v.rank ∧ c ≠ listEnd ∧ inRange c cs.length = some c.toNat ∧ PAone N cs c.toNat
   def PAall (N : List Name) : List ST → Prop
